@@ -197,6 +197,34 @@ def drive_merge(ctx, tier, want='any', pool=None):
         call(S.merge, *[pool.sig(p) for p in case])
 
 
+def drive_merge_renames(ctx, tier):
+    """Rename patterns: two (and three) inputs of three or four positional-or-keyword parameters whose names, position by
+    position, either agree or differ -- every pattern (differ/agree/differ, agree/differ/agree/differ, ...), with and
+    without trailing defaults and star parameters.  Shared names sit at the same index with the same kind, so the second
+    clause of C01 applies to every one of these merges; the universes never have enough names for them."""
+    S = sigapi()
+    pool = SigPool()
+    left = ('a', 'b', 'c', 'd')
+    right = ('w', 'x', 'y', 'z')
+    third = ('q', 'r', 's', 't')
+    idx = 0
+    for n in (3, 4):
+        for pattern in itertools.product((True, False), repeat=n):
+            for ndef in (0, 1):
+                for tail in ((), (('args', VA, None, None),), (('kwargs', VK, None, None),)):
+                    idx += 1
+                    if not ctx.mine(idx):
+                        continue
+                    mk = lambda names: tuple((nm, PK, ('1' if k >= n - ndef else None), None) for k, nm in enumerate(names)) + tail
+                    p1 = mk(left[:n])
+                    p2 = mk([left[k] if same else right[k] for k, same in enumerate(pattern)])
+                    p3 = mk([left[k] if same else third[k] for k, same in enumerate(pattern)])
+                    ctx.count('driver.merge_renames')
+                    call(S.merge, pool.sig(p1), pool.sig(p2))
+                    call(S.merge, pool.sig(p2), pool.sig(p1))
+                    call(S.merge, pool.sig(p1), pool.sig(p2), pool.sig(p3))
+
+
 def drive_merge_laws(ctx, tier):
     """merge(s), merge(s, s), neutral element on both sides, round trip."""
     S = sigapi()
